@@ -43,7 +43,7 @@ var directMethods = []string{"ExecuteAll", "ExecuteMost", "ExecuteAny", "Execute
 func run(r *vk.Run) {
 	maxN := r.Pick(4, 5)    // exhaustive member counts 0..maxN for every entry point
 	maxUpTo := r.Pick(3, 4) // ExecuteUpTo(a), a = 0..n, for n up to this
-	bigN := r.Pick(0, 6)    // thorough: n = 6 for the strategies reached through Execute
+	bigN := r.Pick(0, 6)    // thorough: n = 6 for Execute(All), Execute(Fast), Execute(Race)
 	randomN := r.Pick(2000, 100000)
 	r.Describe(fmt.Sprintf("exhaustive: every entry point of pkg/group (Execute x {Unspecified, All, Most, Any, One, Fast, Race, out-of-range}, ExecuteAll/Most/Any/One/Fast/Race; ExecuteUpTo(a) for a=0..n, n<=%d) "+
 		"x member count 0..%d x every success/failure assignment x every completion order (members gated by channels released one at a time with a quiescence test in between; One only has its forced order) "+
@@ -80,8 +80,8 @@ func run(r *vk.Run) {
 	for n := 0; n <= max(maxN, bigN); n++ {
 		perms := permutations(n)
 		for _, st := range execStrategies {
-			if n > maxN && (st == int(group.ExecutionStrategyUnspecified) || st == 99 || st == int(group.ExecutionStrategyOne)) {
-				continue
+			if n > maxN && st != int(group.ExecutionStrategyAll) && st != int(group.ExecutionStrategyFast) && st != int(group.ExecutionStrategyRace) {
+				continue // beyond maxN only one threshold strategy and the two early-return strategies
 			}
 			exhaustive += enumerate(n, perms, group.ExecutionStrategy(st) == group.ExecutionStrategyOne, func(ok []bool, order []int, aware []bool) {
 				emit("exec", Spec{Target: "exec", Method: "Execute", Strat: st, N: n, Ok: ok, Order: order, Aware: aware, PCancel: -1})
@@ -134,11 +134,11 @@ func run(r *vk.Run) {
 	}
 
 	if r.Only == "" {
-		r.Require("scenarios", r.Pick(10000, 100000))
-		r.Require("scenarios/exec", r.Pick(8000, 80000))
+		r.Require("scenarios", r.Pick(10000, 400000))
+		r.Require("scenarios/exec", r.Pick(8000, 300000))
 		r.Require("scenarios/trait-group", 2000)
 		r.Require("scenarios/random", randomN*9/10)
-		r.Require("planned-order-realised", r.Pick(8000, 80000))
+		r.Require("planned-order-realised", r.Pick(8000, 300000))
 		r.Require("cancelled-after-decision", 1000)
 		r.Require("live-context-while-open", 1000)
 		r.Require("quiescent-points-after-early-return", 500)
